@@ -670,10 +670,11 @@ impl Hash for Value {
       Value::I64(x)  => x.borrow().hash(state),
       #[cfg(feature = "i128")]
       Value::I128(x) => x.borrow().hash(state),
+      // `0.0 == -0.0`, so both zeros must hash alike (Eq/Hash contract).
       #[cfg(feature = "f32")]
-      Value::F32(x)  => x.borrow().to_bits().hash(state),
+      Value::F32(x)  => { let v = *x.borrow(); (if v == 0.0 { 0.0f32 } else { v }).to_bits().hash(state) },
       #[cfg(feature = "f64")]
-      Value::F64(x)  => x.borrow().to_bits().hash(state),
+      Value::F64(x)  => { let v = *x.borrow(); (if v == 0.0 { 0.0f64 } else { v }).to_bits().hash(state) },
       #[cfg(feature = "complex")]
       Value::C64(x) => x.borrow().hash(state),
       #[cfg(any(feature = "bool", feature = "variable_define"))]
@@ -719,9 +720,9 @@ impl Hash for Value {
       #[cfg(all(feature = "matrix", feature = "i128"))]
       Value::MatrixI128(x) => x.hash(state),
       #[cfg(all(feature = "matrix", feature = "f32"))]
-      Value::MatrixF32(x)  => todo!(),
+      Value::MatrixF32(x)  => { for v in x.as_vec() { (if v == 0.0 { 0.0f32 } else { v }).to_bits().hash(state); } },
       #[cfg(all(feature = "matrix", feature = "f64"))]
-      Value::MatrixF64(x)  => todo!(),
+      Value::MatrixF64(x)  => { for v in x.as_vec() { (if v == 0.0 { 0.0f64 } else { v }).to_bits().hash(state); } },
       #[cfg(all(feature = "matrix", feature = "string"))]
       Value::MatrixString(x) => x.hash(state),
       #[cfg(feature = "matrix")]
@@ -739,8 +740,8 @@ impl Hash for Value {
       Value::Index(x)=> x.borrow().hash(state),
       Value::MutableReference(x) => x.borrow().hash(state),
       Value::EmptyKind(k) => k.hash(state),
-      Value::Empty => Value::Empty.hash(state),
-      Value::IndexAll => Value::IndexAll.hash(state),
+      Value::Empty => 0u8.hash(state),
+      Value::IndexAll => 1u8.hash(state),
     }
   }
 }
